@@ -220,7 +220,7 @@ class Ctx:
             raise AnalysisError(what)
 
     def floor(self, rule, minimum):
-        n = sum(1 for i in self.instances if i["rule"] == rule)
+        n = sum(1 for i in self.instances if i["rule"] == rule) + sum(1 for u in self.unresolved if u["rule"] == rule)
         if n < minimum and not self.findings:  # a reported violation is never masked by a floor
             raise AnalysisError(
                 f"rule {rule}: only {n} instances found, at least {minimum} were "
